@@ -53,7 +53,7 @@ class CertImpl:
         self.max_lines_seen = 0
 
     # ---- budgeted call ----------------------------------------------------------------
-    def budgeted(self, fn, max_lines=200000, wall_s=30):
+    def budgeted(self, fn, max_lines=40000, wall_s=30):
         """Run fn() counting executed lines of middleware frames.  -> ("ok", value) /
         ("raise", exception) / ("budget", reason)"""
         prefix = self.prefix
@@ -116,22 +116,51 @@ class CertImpl:
         return env.patched((self.V2, "datetime", FixedClock(now)))
 
     # ---- whole runs ---------------------------------------------------------------------
-    def run_v1(self, doc, root_hex):
-        """-> ("loaderr", exc) | ("result", map)"""
-        try:
-            cert = self.load(doc)
-        except Exception as e:   # noqa
-            return ("loaderr", e)
-        return ("result", cert.validate_and_get_values(self.root_v1(root_hex)))
+    def _load(self, doc, guarded):
+        if not guarded:
+            try:
+                return ("ok", self.load(doc))
+            except Exception as e:   # noqa
+                return ("loaderr", e)
+        out = self.budgeted(lambda: self.load(doc))
+        return ("loaderr", out[1]) if out[0] == "raise" else out
 
-    def run_v2(self, doc, root_pem, now):
+    def run_v1(self, doc, root_hex, guarded=False):
+        """-> ("loaderr", exc) | ("budget", why) | ("result", map) | ("raise", exc: validation raised)
+
+        guarded: load under the step budget (documents whose targets have no path to the root)."""
+        ld = self._load(doc, guarded)
+        if ld[0] != "ok":
+            return ld
         try:
-            cert = self.load(doc)
+            return ("result", ld[1].validate_and_get_values(self.root_v1(root_hex)))
         except Exception as e:   # noqa
-            return ("loaderr", e)
+            return ("raise", e)
+
+    def run_v2(self, doc, root_pem, now, guarded=False):
+        ld = self._load(doc, guarded)
+        if ld[0] != "ok":
+            return ld
         with self.clock(now):
-            root = self.root_v2(root_pem)
-            return ("result", cert.validate_and_get_values(root))
+            try:
+                root = self.root_v2(root_pem)
+                return ("result", ld[1].validate_and_get_values(root))
+            except Exception as e:   # noqa
+                return ("raise", e)
+
+    def where(self, exc):
+        """(element class or '-', innermost frame of the tree under test) of an exception."""
+        import traceback
+        cls, frame = "-", "-"
+        for fs, _ in traceback.walk_tb(exc.__traceback__):
+            fn = fs.f_code.co_filename
+            if fn.startswith(self.prefix):
+                frame = "%s:%s" % (fn[len(self.prefix):], fs.f_code.co_name)
+                slf = fs.f_locals.get("self")
+                if slf is not None and type(slf).__name__.startswith("HSMCertificate") and \
+                        "Element" in type(slf).__name__:
+                    cls = type(slf).__name__
+        return cls, frame
 
 
 def norm_v2_value(v):
